@@ -128,6 +128,11 @@ func (s *Server) Handle(ctx context.Context, req *Message) *Message {
 		return r
 	}
 	args, err := parsePositionalArguments(req.Params, m.ArgTypes)
+	if err == nil && len(args) != len(m.ArgTypes) {
+		// Absent or null params parse as no arguments at all: that is a
+		// caller's mistake like any other wrong arity, not an internal error.
+		err = fmt.Errorf("invalid number of args: expected %d, got %d", len(m.ArgTypes), len(args))
+	}
 	if err != nil {
 		r.Error = &ErrResponse{
 			Code:    ErrCodeInvalidParams,
